@@ -25,7 +25,8 @@ PROPS = {
          "Nesting depth and positions as stated per obligation."),
  "C08": ("Bounded symbolic model checking of order/compilation/re-evaluation independence: generated multi-definition programs evaluated under every permutation and mode (direct, Code.Compile, k-fold re-evaluation, redefinition) and compared with a reference evaluator that has no notion of order or caching.",
          "≤ 3 definitions, body depth and k as stated."),
- "C09": ("", ""),
+ "C09": ("Bounded symbolic model checking of 'no Lisp-level input faults the host': (a) the real reader incl. resolveToken on every text of <= 2 (3) bytes over all 256 values and <= 3 (4) over a 35-byte alphabet through Read/ReadOne/ReadStream; (b) format control strings of <= 3 (4) symbolic bytes over a 44-byte directive alphabet with 0-2 arguments, ~R and ~T families; (c) 153 index/bound/size taking call shapes x 4 sequence kinds x lengths 0..3 with fully symbolic fixnum arguments; (d) every registered function called with 0, 1, 2 arguments from a 12-object pool (exhaustive enumeration executed by the engine, labelled as such). Every evaluation runs under a guard that turns a Go run-time fault, an allocation that can exceed 2^31 elements and a run past the step budget into assertion failures, replayed natively under a 10 s / 2 GiB watchdog.",
+         "Termination is not proved (only budget overruns are flagged); float/time/bag arguments, 3+-argument tuples, integer sizes in (8, 2^31], @time and symbolic-digit ratio tokens, 44 functions with external side effects are outside."),
  "C10": ("Bounded symbolic model checking of generic dispatch on the real Aux/Method/WhopLoc code: every method table over the stated class chains × qualifiers (bits as parameters/solver forks), argument of each class, compared (outcome class, trace, value) with a cache-free reference dispatcher; cache-coherence invariant on the real maps after every call/defmethod/remove-method; operation histories of length ≤ 3–4.",
          "The concurrency clause is not explored (lock discipline is C17's subject); histories longer than 4 are outside."),
  "C11": ("Bounded symbolic model checking of flavors: flavor DAG, method/whopper assignment and the order of the definition forms from case parameters and solver forks, instance-variable defaults symbolic; trace of a send, returned value and inherited defaults/accessors compared with the component-order rule.",
@@ -40,10 +41,10 @@ PROPS = {
          "Float directives, ~< ~>, ~/ and compositions beyond the stated ones are outside."),
  "C16": ("Bounded symbolic model checking of eq/eql/equal/equalp implication and equivalence axioms over kind pairs/triples with symbolic payloads, sxhash agreement (concrete representatives: enumeration), hash tables as finite maps over short operation histories with symbolic keys, typep/type-of/subtypep/coerce coherence over the real class registry.",
          "Floats are concrete representatives; eq is modelled at the level of Go interface words (only boxing-independent facts are asserted)."),
- "C17": ("Lock-discipline (lockset) checking by symbolic execution: every entry point of the shared package tables is executed from a coherent state with the engine's mutex model; a monitor flags every read/write of Package.vars/funcs/lambdas/classes without the owning mutex and every mutex left held. A violation is confirmed natively by running the operation from two goroutines under the Go race detector.",
-         "Sufficient condition only (lockset on every explored path ⇒ no overlapping conflicting accesses under any schedule); schedules, channel delivery, lost updates of user programs, generic-function caches and synchronized instances are NOT explored — see DESIGN.md."),
- "C18": ("Bounded symbolic model checking of the Go data bridge: SimpleObject∘Simplify on every scalar kind with full-width symbolic payloads and on []any/map[string]any trees of depth ≤ 2; ObjectToBag∘bag-native on trees with symbolic leaves.",
-         "Everything that executes inside the external ojg module (JSON/SEN parse and write, JSONPath get/set/has/remove/walk) is NOT covered; time.Time is not covered."),
+ "C17": ("(1) Lock-discipline (lockset) checking by symbolic execution: every entry point of the shared package tables, the generic-function caches and synchronized instances is executed from a coherent state with the engine's mutex model; a monitor flags every read/write of the guarded tables without the owning mutex and every mutex left held; a violation is confirmed natively by running the operation from two goroutines under the Go race detector. (2) Bounded symbolic model checking of the real pkg/gi channel / run / select / range / with-mutex-lock / set-synchronized code on the engine's deterministic cooperative task model (channels as FIFO queues, `go` = task, select among ready cases by solver choice, deadlock = every task blocked) with symbolic payloads: FIFO order and exactly-once delivery, close semantics, range, select clause choice, mutex release on every exit, counters under a lock, synchronized instances; engine predictions are compared with native runs on real goroutines for schedule-independent facts.",
+         "Part (1) is a sufficient condition over all schedules (lockset on every explored path); part (2) explores ONE schedule per program plus a stated number of alternative scheduling decisions — preemption between scheduling points, lost updates of unlocked user programs and Select.reflectClauses are NOT explored."),
+ "C18": ("Bounded symbolic model checking of the Go data bridge and the bag: SimpleObject∘Simplify on every scalar kind with full-width symbolic payloads and on []any/map[string]any trees of depth <= 2; ObjectToBag∘bag-native; bag-set / bag-remove / bag-modify / bag-get / bag-get-all / bag-has / bag-walk histories of 1–3 operations over 15 document shapes and a 29-path grid (keys, indices incl. negative and symbolic, wildcards, slices, descent, root paths) with symbolic leaves, against an independent JSON-path reference model — the ojg jp/oj/sen/alt packages are interpreted from their own SSA in these runs; parse→write→parse round trips over 26 concrete shapes x write options; json-parse with several documents and a receiver that keeps the bags; recovery after a parse error.",
+         "Document text is concrete (bounded enumeration executed by the engine, said so in the notes); filter expressions, unions, bag-read streams, time values, colour/time output options, integers beyond int64 and symbolic keys are outside."),
  "C19": ("Bounded symbolic model checking of load forms: eval(LoadForm(x)) equal and same type for numbers/strings/symbols/lists/vectors/arrays/hash tables/lambdas/calls with symbolic leaves; through text with the pretty-printer's right margin symbolic in 20..120; fixed point of definition load forms (defun, defmacro, defflavor, defclass, defgeneric) and the variable part of a snapshot.",
          "snapshot → fresh process → reload is out of reach (one address space); ratios/floats through text are outside."),
  "C20": ("Bounded symbolic model checking of REPL persistence on an in-engine file-system model (files as byte vectors with real open-flag semantics, rename atomic, one step per call, crash point as a solver choice): encoding round trip with symbolic runes, restart equivalence after Add/SetLimit/Clear sequences, process death at every file-system step of Add/Clear followed by reload, Stash.clear range semantics, config file re-readability. Crash counterexamples are replayed natively by constructing the surviving directory.",
@@ -51,7 +52,6 @@ PROPS = {
 }
 
 NA_REASONS = {
- "C09": "check not built yet",
 }
 
 
@@ -80,7 +80,7 @@ def main():
     m["hooks"]["source_commits"] = [l.split()[0] for l in fixes][::-1]
     m["hooks"]["enable"] = "no hooks in /repo: harnesses, the zzvrt API package and replay tests enter through go/packages Overlay and `go test -overlay`; source_commits lists the unguarded `fix:` commits (genuine defects repaired)"
     m["notes"] = ("All checks share one engine (symgo). Known findings: /verif/known_findings.txt and /verif/known_findings.d/CNN.txt. "
-                  "Seeded changes tried against the checks: /verif/seeded/<ID>_m<k>/ (patch, demonstration, meta.json with the outcome). C09 is the only property without a check yet.")
+                  "Seeded changes tried against the checks: /verif/seeded/<ID>_m<k>/ (patch, demonstration, meta.json with the outcome).")
     m["checks"] = checks
     m["not_applicable"] = na
     m["engines"] = [{"name": "symgo", "path": "/verif/engine", "serves_properties": [c["property_id"] for c in checks],
